@@ -378,3 +378,247 @@ Proof.
   intros U H. rewrite get_marks_eq_pointwise by exact H. unfold marks_at_pos, marks_at_elem.
   rewrite at_pos_unit by exact U. reflexivity.
 Qed.
+
+(* ------------------------------------------------------------------ equality tests are sound *)
+Lemma scalar_eqb_sound a b : scalar_eqb a b = true -> a = b.
+Proof.
+  destruct a, b; cbn; try discriminate; intros H; try reflexivity; f_equal.
+  - apply Bool.eqb_prop, H.
+  - apply Z.eqb_eq, H.
+  - apply N.eqb_eq, H.
+  - apply N.eqb_eq, H.
+  - apply nlist_eqb_spec, H.
+  - apply nlist_eqb_spec, H.
+  - apply Z.eqb_eq, H.
+  - apply Z.eqb_eq, H.
+  - apply andb_true_iff in H. apply N.eqb_eq, H.
+  - apply andb_true_iff in H. apply nlist_eqb_spec, H.
+Qed.
+
+Lemma markset_eqb_sound (a b : markset) : markset_eqb a b = true -> a = b.
+Proof.
+  unfold markset_eqb. revert b. induction a as [|[n v] t IH]; intros [|[n' v'] t']; cbn; try discriminate; [reflexivity|].
+  intros H. apply andb_true_iff in H. destruct H as [H1 H2]. apply andb_true_iff in H1. destruct H1 as [Hn Hv].
+  apply nlist_eqb_spec in Hn. apply scalar_eqb_sound in Hv. subst. f_equal. apply IH, H2.
+Qed.
+
+(* ------------------------------------------------------------------ spans *)
+(* every code point of every span with the span's mark set *)
+Definition expand_spans (sp : list span) : list (N * markset) :=
+  flat_map (fun s => map (fun c => (c, snd s)) (fst s)) sp.
+(* every code point of every visible character with the character's reported mark set *)
+Definition pointwise_chars (m : list pent) : list (N * markset) :=
+  flat_map (fun e => map (fun c => (c, without_unmarks (p_set e))) (p_txt e)) m.
+
+Lemma spans_go_some m : forall buf len mk,
+  Forall (fun e => 0 < p_w e) m -> 0 < len ->
+  expand_spans (spans_go m (Some (buf, len, mk))) = map (fun c => (c, mk)) buf ++ pointwise_chars m.
+Proof.
+  induction m as [|e t IH]; intros buf len mk Hpos Hlen.
+  - cbn [spans_go flush_span]. replace (len =? 0) with false by (symmetry; apply N.eqb_neq; lia).
+    cbn. rewrite !app_nil_r. reflexivity.
+  - inversion Hpos as [|? ? He Ht]; subst. cbn [spans_go].
+    destruct (markset_eqb (without_unmarks (p_set e)) mk) eqn:E.
+    + apply markset_eqb_sound in E. rewrite IH by (auto; lia).
+      rewrite map_app, <- app_assoc. cbn [pointwise_chars flat_map]. rewrite E. reflexivity.
+    + unfold expand_spans. rewrite flat_map_app. fold (expand_spans (spans_go t (Some (p_txt e, p_w e, without_unmarks (p_set e))))).
+      rewrite IH by auto. cbn [flush_span]. replace (len =? 0) with false by (symmetry; apply N.eqb_neq; lia).
+      cbn. rewrite app_nil_r. reflexivity.
+Qed.
+
+Theorem spans_marks_eq_pointwise (its : list item) :
+  Forall (fun e => 0 < p_w e) (marking its []) ->
+  expand_spans (spans its) = pointwise_chars (marking its []).
+Proof.
+  unfold spans. destruct (marking its []) as [|e t]; intros H; [reflexivity|].
+  inversion H; subst. cbn [spans_go]. rewrite spans_go_some by auto. reflexivity.
+Qed.
+
+(* the spans also concatenate to the text *)
+Theorem spans_concat_text (its : list item) :
+  Forall (fun e => 0 < p_w e) (marking its []) ->
+  flat_map fst (spans its) = flat_map p_txt (marking its []).
+Proof.
+  intros H. pose proof (spans_marks_eq_pointwise its H) as E.
+  apply (f_equal (map fst)) in E. unfold expand_spans, pointwise_chars in E.
+  rewrite !flat_map_concat_map, !concat_map, !map_map in E.
+  rewrite !flat_map_concat_map.
+  erewrite map_ext in E; [erewrite (map_ext _ p_txt) in E; [exact E|]|].
+  - intros a. cbn. rewrite map_map. cbn. apply map_id.
+  - intros a. cbn. rewrite map_map. cbn. apply map_id.
+Qed.
+
+(* ------------------------------------------------------------------ marks() *)
+Definition covl (l : list accitem) (p : N) (v : scalar) : Prop :=
+  exists it, In it l /\ a_index it <= p < a_index it + a_len it /\ a_val it = v.
+Definition cov (a : acc) (n : mname) (p : N) (v : scalar) : Prop :=
+  exists l, In (n, l) a /\ covl l p v.
+
+Lemma covl_app x y p v : covl (x ++ y) p v <-> covl x p v \/ covl y p v.
+Proof.
+  unfold covl. split.
+  - intros (it & Hin & H). apply in_app_or in Hin. destruct Hin; [left|right]; eauto.
+  - intros [(it & Hin & H)|(it & Hin & H)]; exists it; (split; [apply in_or_app; auto|exact H]).
+Qed.
+
+Lemma covl_one i p v : covl [i] p v <-> a_index i <= p < a_index i + a_len i /\ a_val i = v.
+Proof.
+  unfold covl. split.
+  - intros (it & [<-|[]] & H). exact H.
+  - intros H. exists i. split; [left; reflexivity|exact H].
+Qed.
+
+Lemma covl_nil p v : ~ covl [] p v.
+Proof. intros (it & [] & _). Qed.
+
+Lemma push_item_cov idx len v0 l p v :
+  covl (push_item idx len v0 l) p v <-> covl l p v \/ (v = v0 /\ idx <= p < idx + len).
+Proof.
+  unfold push_item. destruct (rev l) as [|last before] eqn:E.
+  - assert (l = []) by (apply (f_equal (@rev _)) in E; rewrite rev_involutive in E; exact E). subst l.
+    rewrite covl_one. cbn. split; [intros [H1 H2]; right; split; [congruence|lia]|].
+    intros [H|[H1 H2]]; [exfalso; eapply covl_nil, H|split; [lia|congruence]].
+  - assert (El : l = rev before ++ [last]).
+    { apply (f_equal (@rev _)) in E. rewrite rev_involutive in E. exact E. }
+    destruct (scalar_eqb (a_val last) v0 && (a_index last + a_len last =? idx)) eqn:C.
+    + apply andb_true_iff in C. destruct C as [Cv Ci]. apply scalar_eqb_sound in Cv. apply N.eqb_eq in Ci.
+      rewrite El, !covl_app, !covl_one. cbn. split.
+      * intros [H|[H1 H2]]; [auto|].
+        destruct (p <? idx) eqn:Ep; [left; right; split; [lia|congruence]|right; split; [congruence|lia]].
+      * intros [[H|[H1 H2]]|[H1 H2]]; [auto| |]; right; (split; [lia|congruence]).
+    + rewrite covl_app, covl_one. cbn. split.
+      * intros [H|[H1 H2]]; [auto|right; split; [congruence|lia]].
+      * intros [H|[H1 H2]]; [auto|right; split; [lia|congruence]].
+Qed.
+
+Lemma bytes_cmp_eq a b : bytes_cmp a b = Eq -> a = b.
+Proof. apply (cmp_eq bytes_cmp_total). Qed.
+
+Lemma acc_upd_cov k idx len v0 a n p v :
+  cov (acc_upd k (push_item idx len v0) a) n p v <-> cov a n p v \/ (n = k /\ v = v0 /\ idx <= p < idx + len).
+Proof.
+  induction a as [|[key l] t IH]; cbn [acc_upd].
+  - unfold cov. split.
+    + intros (l & [H|[]] & Hc). inversion H; subst. apply push_item_cov in Hc.
+      destruct Hc as [Hc|Hc]; [exfalso; eapply covl_nil, Hc|right; tauto].
+    + intros [(l & [] & _)|(-> & Hv & Hr)]. eexists. split; [left; reflexivity|]. apply push_item_cov. right. tauto.
+  - destruct (bytes_cmp k key) eqn:E.
+    + apply bytes_cmp_eq in E. subst key. unfold cov. split.
+      * intros (l' & [H|H] & Hc).
+        -- inversion H; subst. apply push_item_cov in Hc. destruct Hc as [Hc|Hc]; [left; exists l; split; [left; reflexivity|exact Hc]|right; tauto].
+        -- left. exists l'. split; [right; exact H|exact Hc].
+      * intros [(l' & [H|H] & Hc)|(-> & Hv & Hr)].
+        -- inversion H; subst. eexists. split; [left; reflexivity|]. apply push_item_cov. left. exact Hc.
+        -- exists l'. split; [right; exact H|exact Hc].
+        -- eexists. split; [left; reflexivity|]. apply push_item_cov. right. tauto.
+    + unfold cov. split.
+      * intros (l' & [H|H] & Hc).
+        -- inversion H; subst. apply push_item_cov in Hc. destruct Hc as [Hc|Hc]; [exfalso; eapply covl_nil, Hc|right; tauto].
+        -- left. exists l'. split; [exact H|exact Hc].
+      * intros [(l' & H & Hc)|(-> & Hv & Hr)].
+        -- exists l'. split; [right; exact H|exact Hc].
+        -- eexists. split; [left; reflexivity|]. apply push_item_cov. right. tauto.
+    + split.
+      * intros (l' & [H|H] & Hc).
+        -- inversion H; subst. left. exists l'. split; [left; reflexivity|exact Hc].
+        -- assert (C : cov (acc_upd k (push_item idx len v0) t) n p v) by (exists l'; auto).
+           apply IH in C. destruct C as [(l2 & H2 & Hc2)|C]; [left; exists l2; split; [right; exact H2|exact Hc2]|right; exact C].
+      * intros [(l' & [H|H] & Hc)|C].
+        -- inversion H; subst. exists l'. split; [left; reflexivity|exact Hc].
+        -- assert (C : cov (acc_upd k (push_item idx len v0) t) n p v) by (apply IH; left; exists l'; auto).
+           destruct C as (l2 & H2 & Hc2). exists l2. split; [right; exact H2|exact Hc2].
+        -- assert (C2 : cov (acc_upd k (push_item idx len v0) t) n p v) by (apply IH; right; exact C).
+           destruct C2 as (l2 & H2 & Hc2). exists l2. split; [right; exact H2|exact Hc2].
+Qed.
+
+Lemma acc_add_cov idx len s : forall a n p v,
+  cov (acc_add idx len s a) n p v <-> cov a n p v \/ (In (n, v) s /\ idx <= p < idx + len).
+Proof.
+  unfold acc_add. induction s as [|[k v0] t IH]; intros a n p v; cbn [fold_left].
+  - split; [auto|intros [H|[[] _]]; exact H].
+  - rewrite IH, acc_upd_cov. cbn [fst snd In]. split.
+    + intros [[H|(-> & -> & Hr)]|[Hin Hr]]; [auto|right; split; [left; reflexivity|exact Hr]|right; split; [right; exact Hin|exact Hr]].
+    + intros [H|[[Hin|Hin] Hr]]; [auto| |right; split; auto].
+      inversion Hin; subst. left. right. tauto.
+Qed.
+
+(* the pointwise marking of a list of entries laid out from [index] on *)
+Fixpoint pw (ents : list pent) (index : N) (n : mname) (p : N) (v : scalar) : Prop :=
+  match ents with
+  | [] => False
+  | e :: t => (index <= p < index + p_w e /\ In (n, v) (p_set e)) \/ pw t (index + p_w e) n p v
+  end.
+
+Lemma flush_run_cov mindex mlen last a n p v :
+  cov (flush_run mindex mlen last a) n p v <-> cov a n p v \/ (In (n, v) last /\ mindex <= p < mindex + mlen).
+Proof.
+  unfold flush_run. destruct (0 <? mlen) eqn:E.
+  - apply acc_add_cov.
+  - apply N.ltb_ge in E. split; [auto|intros [H|[_ H]]; [exact H|lia]].
+Qed.
+
+Lemma runs_cov ents : forall index last mlen mindex a n p v,
+  mindex + mlen = index ->
+  (cov (runs ents index last mlen mindex a) n p v <->
+   cov a n p v \/ (In (n, v) last /\ mindex <= p < index) \/ pw ents index n p v).
+Proof.
+  induction ents as [|e t IH]; intros index last mlen mindex a n p v Hi; cbn [runs pw].
+  - rewrite flush_run_cov, Hi. tauto.
+  - destruct (markset_eqb last (p_set e)) eqn:E.
+    + apply markset_eqb_sound in E. rewrite IH by lia. rewrite <- E. split.
+      * intros [H|[[H1 H2]|H]]; [auto| |auto].
+        destruct (p <? index) eqn:Ep; [right; left; split; [exact H1|lia]|right; right; left; split; [lia|exact H1]].
+      * intros [H|[[H1 H2]|[[H1 H2]|H]]]; [auto| | |auto]; right; left; (split; [assumption|lia]).
+    + rewrite IH by lia. rewrite flush_run_cov, Hi. tauto.
+Qed.
+
+Lemma pw_at_pos ents : forall index n p v,
+  pw ents index n p v <-> index <= p /\ In (n, v) (at_pos ents (p - index)).
+Proof.
+  induction ents as [|e t IH]; intros index n p v; cbn [pw at_pos].
+  - cbn. tauto.
+  - rewrite IH. destruct (p - index <? p_w e) eqn:E.
+    + apply N.ltb_lt in E. split.
+      * intros [[H1 H2]|[H1 H2]]; [split; [lia|exact H2]|lia].
+      * intros [H1 H2]. left. split; [lia|exact H2].
+    + apply N.ltb_ge in E. replace (p - (index + p_w e)) with (p - index - p_w e) by lia. split.
+      * intros [[H1 H2]|[H1 H2]]; [lia|split; [lia|exact H2]].
+      * intros [H1 H2]. right. split; [lia|exact H2].
+Qed.
+
+Lemma acc_out_cov a s e n v :
+  In (s, e, n, v) (acc_out a) <->
+  exists l it, In (n, l) a /\ In it l /\ s = a_index it /\ e = a_index it + a_len it /\ v = a_val it /\ v <> SNull.
+Proof.
+  unfold acc_out. rewrite in_flat_map. split.
+  - intros ([k l] & Hkl & Hin). cbn [fst snd] in Hin. apply in_flat_map in Hin. destruct Hin as (it & Hit & Hin).
+    destruct (is_null (a_val it)) eqn:En; [destruct Hin|]. destruct Hin as [Hin|[]]. inversion Hin; subst.
+    exists l, it. repeat split; auto. intros Hn. rewrite Hn in En. discriminate.
+  - intros (l & it & Hl & Hit & -> & -> & -> & Hn). exists (n, l). split; [exact Hl|]. cbn [fst snd].
+    apply in_flat_map. exists it. split; [exact Hit|].
+    destruct (is_null (a_val it)) eqn:En; [|left; reflexivity].
+    destruct (a_val it); first [discriminate|congruence].
+Qed.
+
+(* marks(): a position lies in a reported range of name n with value v exactly when the pointwise
+   marking gives n the (non-null) value v there *)
+Theorem marks_eq_pointwise (its : list item) (p : N) (n : mname) (v : scalar) :
+  (exists s e, In (s, e, n, v) (marks its) /\ s <= p < e) <->
+  In (n, v) (without_unmarks (marks_at_pos its p)).
+Proof.
+  unfold marks, marks_at_pos. rewrite without_unmarks_in.
+  pose proof (runs_cov (marking its []) 0 [] 0 0 [] n p v eq_refl) as R.
+  pose proof (pw_at_pos (marking its []) 0 n p v) as P. rewrite N.sub_0_r in P.
+  split.
+  - intros (s & e & Hin & Hr). apply acc_out_cov in Hin.
+    destruct Hin as (l & it & Hl & Hit & -> & -> & -> & Hn).
+    assert (C : cov (runs (marking its []) 0 [] 0 0 []) n p (a_val it)).
+    { exists l. split; [exact Hl|]. exists it. repeat split; auto; lia. }
+    apply R in C. destruct C as [(l' & [] & _)|[[[] _]|C]]. apply P in C. tauto.
+  - intros [Hin Hn].
+    assert (C : cov (runs (marking its []) 0 [] 0 0 []) n p v).
+    { apply R. right. right. apply P. split; [lia|exact Hin]. }
+    destruct C as (l & Hl & it & Hit & Hr & Hv).
+    exists (a_index it), (a_index it + a_len it). split; [|exact Hr].
+    apply acc_out_cov. exists l, it. repeat split; auto; congruence.
+Qed.
